@@ -75,7 +75,6 @@ std::unique_ptr<NodeResult> CallNode::evaluate(PSC::Context &ctx) {
         throw PSC::RuntimeError(token, ctx, "VERIF budget exhausted: depth");
 #endif
     auto procedureCtx = std::make_unique<PSC::Context>(&ctx, procedureName);
-    ctx.switchToken = &token;
 
     for (size_t i = 0; i < args.size(); i++) {
         auto &argRes = argResults[i];
@@ -140,6 +139,9 @@ std::unique_ptr<NodeResult> CallNode::evaluate(PSC::Context &ctx) {
         procedureCtx->addVariable(var);
     }
 
+    // the call site is noted only now: binding a BYREF argument may itself call a function (in an index
+    // expression), and that call clears the note of the context it ran in
+    ctx.switchToken = &token;
     procedure->run(*procedureCtx);
     ctx.switchToken = nullptr;
 
